@@ -320,7 +320,36 @@ pub fn observe(data: &[u8], key: &DatabaseKey) -> J {
         Ok(Err(e)) => (format!("err:{}", err_class(e)), None, None, None),
         Err(p) => (format!("panic:{}", p.site()), None, None, None),
     };
+    // the same bytes through `Database::open` from a reader that hands them over in pieces (a pipe, a socket, a chained reader):
+    // the entry points must agree
+    let parse = if data.len() < (2 << 20) && data.len() % 3 != 2 {
+        let cap = [1usize, 5, 11, 13, 4096][data.len() % 5];
+        let mut rd = Pieces { data, pos: 0, cap };
+        let op = catch(|| Database::open(&mut rd, key.clone()));
+        let (o, odb) = match &op {
+            Ok(Ok(d)) => ("ok".to_string(), Some(hex::encode(kdbx::sha256(&[serde_json::to_string(&dump::database(d)).unwrap().as_bytes()])))),
+            Ok(Err(e)) => (format!("err:{}", err_class(e)), None),
+            Err(p) => (format!("panic:{}", p.site()), None),
+        };
+        if o != parse || odb != db { format!("open-from-a-reader-in-pieces-of-{}-differs-from-parse:{}:{}", cap, o, parse) } else { parse }
+    } else {
+        parse
+    };
     json!({"decrypt": decrypt, "xml_sha256": xml_sha, "parse": parse, "config": config, "attachments": atts, "db_sha256": db})
+}
+
+struct Pieces<'a> {
+    data: &'a [u8],
+    pos: usize,
+    cap: usize,
+}
+impl<'a> std::io::Read for Pieces<'a> {
+    fn read(&mut self, buf: &mut [u8]) -> std::io::Result<usize> {
+        let n = buf.len().min(self.cap).min(self.data.len() - self.pos);
+        buf[..n].copy_from_slice(&self.data[self.pos..self.pos + n]);
+        self.pos += n;
+        Ok(n)
+    }
 }
 
 pub fn spec_json(s: &Kdbx4Spec) -> J {
@@ -455,7 +484,7 @@ pub fn run_cred(ctx: &mut Ctx) {
                 };
                 for (data, origin) in [(Some(built), "builder"), (saved, "library-save")] {
                     let data = match data { Some(d) => d, None => continue };
-                    for n in [6u64, 12, 13, 14, 15, 16, 17, 5, 11] {
+                    for n in [6u64, 12, 13, 14, 15, 16, 17, 5, 11, 18, 19] {
                         let (pw2, kf2, what) = edit_creds_n(&mut rng, &creds, n);
                         let comp2 = ref_composite(&pw2, &kf2);
                         if comp2.as_deref() == Some(&comp[..]) {
@@ -478,6 +507,17 @@ pub fn run_cred(ctx: &mut Ctx) {
         if fi % 8 == 7 {
             creds.kf = Some(rng.bytes_pick(&[65_537usize, 70_000, 131_073]));   // larger than any buffer a reader might cap at
         }
+        if fi % 8 == 5 {
+            // one key file that begins with the bytes of `make_key`'s wrong pick
+            let mut rest = rng.bytes(40);
+            rest[1] = 0;
+            while !crate::keyop::uses_decoy(&rest) {
+                rest[1] += 1;
+            }
+            let mut k = crate::keyop::DECOY.to_vec();
+            k.extend_from_slice(&rest);
+            creds.kf = Some(k);
+        }
         let comp = ref_composite(&creds.pw, &creds.kf).unwrap();
         let layout = gen_layout(&mut rng, &spec);
         let data = if fi % 4 == 3 {
@@ -491,8 +531,8 @@ pub fn run_cred(ctx: &mut Ctx) {
         } else {
             kdbx::build_kdbx4(&spec, &layout, &comp).unwrap()
         };
-        for _ in 0..edits_per {
-            let (pw2, kf2, what) = edit_creds(&mut rng, &creds);
+        for ei in 0..edits_per {
+            let (pw2, kf2, what) = if ei == 0 && fi % 8 == 5 { edit_creds_n(&mut rng, &creds, 19) } else if ei == 0 && creds.kf.is_none() { edit_creds_n(&mut rng, &creds, 18) } else { edit_creds(&mut rng, &creds) };
             let comp2 = ref_composite(&pw2, &kf2);
             if comp2.as_deref() == Some(&comp[..]) {
                 continue; // the edit did not change the derived key (e.g. same key file content re-encoded)
@@ -505,7 +545,7 @@ pub fn run_cred(ctx: &mut Ctx) {
 }
 
 fn edit_creds(rng: &mut Rng, c: &Creds) -> (Option<String>, Option<Vec<u8>>, &'static str) {
-    let n = rng.below(18);
+    let n = rng.below(20);
     edit_creds_n(rng, c, n)
 }
 
@@ -558,6 +598,13 @@ fn edit_creds_n(rng: &mut Rng, c: &Creds, n: u64) -> (Option<String>, Option<Vec
         5 => (pw, if kf.is_some() { None } else { Some(rng.bytes(32)) }, "keyfile-removed-or-added"),
         6 => (pw, kf.map(|mut k| { if k.is_empty() { k.push(1) } else { let i = rng.below(k.len() as u64) as usize; k[i] ^= 1 << rng.below(8); } k }).or(Some(vec![0u8; 32])), "keyfile-bit-flip"),
         7 => (None, None, "empty-credentials"),
+        // an empty key file is a key file: its presence changes the key
+        18 => (pw, Some(vec![]), if c.kf.is_some() { "keyfile-emptied" } else { "empty-keyfile-added" }),
+        // the database is keyed by one key file that begins with the bytes `make_key` hands over first as a wrong pick; the rest of
+        // it is offered (as the corrected pick): a key holds the key file given last, not what was given so far
+        19 if kf.as_ref().map(|k| k.starts_with(crate::keyop::DECOY) && crate::keyop::uses_decoy(&k[crate::keyop::DECOY.len()..])).unwrap_or(false) =>
+            (pw, kf.map(|k| k[crate::keyop::DECOY.len()..].to_vec()), "keyfile-is-the-rest-after-the-wrong-pick"),
+        19 => (pw, kf.map(|mut k| { k.insert(0, 0); k }).or(Some(vec![9u8; 32])), "keyfile-one-byte-in-front"),
         8 => (pw.clone().map(|p| p.chars().rev().collect::<String>() + "r"), kf, "reversed"),
         9 => (Some(String::new()), None, "empty-password-only"),
         10 => (pw.map(|p| p.replace('ä', "a\u{308}") + "\u{200b}"), kf, "nfd-or-zero-width"),
